@@ -52,11 +52,12 @@ def _mask(n):
 
 
 class Live:
-    __slots__ = ("solver", "M", "added", "name", "added_objs")
+    __slots__ = ("solver", "M", "added", "name", "added_objs", "twin")
 
     def __init__(self, solver, M, added, name, added_objs=None):
         self.solver, self.M, self.added, self.name = solver, M, added, name
         self.added_objs = list(added_objs or [])
+        self.twin = None  # an unpickled copy that receives the same operations; its answers must equal the original's
 
 
 class Result:
@@ -126,7 +127,8 @@ class Machine:
         """Runs fn(); returns ("ok", value) | ("unsat", None) | ("fail", None) | ("faulted", None)."""
         if self.faults is not None:
             return self._call_with_faults(i, step, fn, allow_unsat)
-        return self._call_plain(i, step, fn, allow_unsat)
+        self._last = self._call_plain(i, step, fn, allow_unsat)
+        return self._last
 
     def _call_with_faults(self, i, step, fn, allow_unsat):
         from . import faults
@@ -177,6 +179,88 @@ class Machine:
             return "fail", None
 
     def step(self, i, step):
+        lv = self._pick(step)
+        n_live = len(self.live)
+        self._last = None
+        self._step_body(i, step)
+        if lv.twin is not None and not self.res.fails and self.faults is None:
+            self._twin_step(i, step, lv, n_live)
+
+    def _twin_step(self, i, step, lv, n_live):
+        """The unpickled copy gets the same operation; where the answer is determined by the solver's state (not by a free choice
+        among feasible values) it must equal the original's."""
+        op = step["op"]
+        tw = lv.twin
+        last = self._last
+        if op == "add":
+            if last is not None and last[0] == "ok":
+                cs = lv.added_objs[-len(step["cs"]):]
+                try:
+                    tw.add(cs if (len(cs) != 1 or step.get("as_list")) else cs[0])
+                except Exception as e:  # noqa: BLE001
+                    self.fail("twin-raises:" + exprcheck.exc_fingerprint(e), i, step, {"exc": repr(e)[:200]})
+            return
+        if op in ("simplify", "downsize", "finalize"):
+            fn = getattr(tw, op, None)
+            if fn is not None and last is not None and last[0] == "ok":
+                try:
+                    fn()
+                except Exception as e:  # noqa: BLE001
+                    self.fail("twin-raises:" + exprcheck.exc_fingerprint(e), i, step, {"exc": repr(e)[:200]})
+            return
+        if op == "branch":
+            if len(self.live) > n_live:
+                self.live[-1].twin = tw.branch()
+            return
+        if op not in ("sat", "eval", "batch", "min", "max", "solution", "is_true", "is_false") or last is None:
+            return
+        kw = {"exact": step["exact"]} if "exact" in step else {}
+        extras = tuple(bld(ir.T(t)) for t in step.get("extra", ()))
+
+        def norm_seq(r, n):
+            r = list(r)
+            return frozenset(tuple(x) if isinstance(x, (list, tuple)) else x for x in r) if len(r) < n else None
+
+        try:
+            if op == "sat":
+                mine = bool(tw.satisfiable(extra_constraints=extras, **kw))
+                theirs = bool(last[1]) if last[0] == "ok" else last[0]
+            elif op in ("is_true", "is_false"):
+                mine = bool(getattr(tw, op)(bld(ir.T(step["e"])), extra_constraints=extras, **kw))
+                theirs = bool(last[1]) if last[0] == "ok" else last[0]
+            elif op == "eval":
+                mine = norm_seq(tw.eval(bld(ir.T(step["e"])), step["n"], extra_constraints=extras, **kw), step["n"])
+                theirs = norm_seq(last[1], step["n"]) if last[0] == "ok" else last[0]
+            elif op == "batch":
+                mine = norm_seq(tw.batch_eval([bld(ir.T(t)) for t in step["es"]], step["n"], extra_constraints=extras, **kw), step["n"])
+                theirs = norm_seq(last[1], step["n"]) if last[0] == "ok" else last[0]
+            elif op in ("min", "max"):
+                n = ir.width(ir.T(step["e"]))
+                mine = int(getattr(tw, op)(bld(ir.T(step["e"])), extra_constraints=extras, signed=bool(step.get("signed")), **kw)) & _mask(n)
+                theirs = (int(last[1]) & _mask(n)) if last[0] == "ok" else last[0]
+            else:  # solution
+                e_t = ir.T(step["e"])
+                v_spec = step["v"]
+                v = bld(ir.T(v_spec)) if isinstance(v_spec, (list, tuple)) else (claripy.BVV(int(v_spec), ir.width(e_t)) if step.get("v_as_bvv") else int(v_spec))
+                mine = bool(tw.solution(bld(e_t), v, extra_constraints=extras, **kw))
+                theirs = bool(last[1]) if last[0] == "ok" else last[0]
+        except claripy.errors.UnsatError:
+            mine = "unsat"
+            theirs = last[0] if last[0] != "ok" else ("ok", repr(last[1])[:80])
+        except (claripy.errors.ClaripyFrontendError, NotImplementedError):
+            mine = "declined"
+            theirs = last[0] if last[0] != "ok" else ("ok", repr(last[1])[:80])
+        except Exception as e:  # noqa: BLE001
+            self.fail("twin-raises:" + exprcheck.exc_fingerprint(e), i, step, {"exc": repr(e)[:200]})
+            return
+        self.res.stats["twin_compared"] = self.res.stats.get("twin_compared", 0) + 1
+        if mine is None or theirs is None:
+            return  # a free choice among feasible values: nothing to compare
+        if mine != theirs:
+            show = lambda v: sorted(v, key=repr)[:12] if isinstance(v, frozenset) else v  # noqa: E731
+            self.fail("unpickled-copy-answers-differently", i, step, {"original": show(theirs), "unpickled": show(mine)})
+
+    def _step_body(self, i, step):
         op = step["op"]
         lv = self._pick(step)
         s = lv.solver
@@ -249,7 +333,9 @@ class Machine:
             st_, b = self._call(i, step, lambda: pickle.loads(pickle.dumps(s, -1)), allow_unsat=False)
             if st_ == "ok":
                 self.res.stats["pickles"] += 1
-                if step.get("keep_original") and len(self.live) < 6:
+                if step.get("twin"):
+                    lv.twin = b
+                elif step.get("keep_original") and len(self.live) < 6:
                     self.live.append(Live(b, lv.M.copy(), list(lv.added), f"s{len(self.live)}", lv.added_objs))
                 else:
                     lv.solver = b
@@ -784,6 +870,8 @@ def steps(draw, groups=("core", "maint", "branch"), names=BVVARS, exact_kw=None)
         return step
     if k == "pickle":
         step["keep_original"] = draw(st.booleans())
+        if draw(st.integers(0, 2)) == 0:
+            step["twin"] = True
         return step
     step["extra"] = draw(extras_strategy(names))
     if k == "sat" or k == "unsat_core":
@@ -1013,21 +1101,86 @@ def scenario_pickle(draw, exact_kw=None):
             cs = [("eq", v, _c(draw(st.sampled_from(CONSTS))))]
         for c in cs:
             out.append({"op": "add", "s": draw(st.integers(0, 3)) if n_br else 0, "cs": [c], "as_list": False})
-    out.append(draw(st.sampled_from(({"op": "pickle_all", "s": 0}, {"op": "pickle_all", "s": 0}, {"op": "pickle", "s": draw(st.integers(0, 3)), "keep_original": draw(st.booleans())}))))
+    out.append(draw(st.sampled_from(({"op": "pickle_all", "s": 0}, {"op": "pickle_all", "s": 0}, {"op": "pickle", "s": draw(st.integers(0, 3)), "keep_original": draw(st.booleans())},
+                                     {"op": "pickle", "s": draw(st.integers(0, 3)), "twin": True}))))
+
+    # compound terms over the constrained variables: what a replacement-based frontend caches derived entries for
+    comp = [draw(st.sampled_from((("bvadd", x, _c(1)), ("bvadd", x, y), ("bvand", x, _c(12)), ("bvsub", y, x), ("bvmul", x, _c(3)), ("zext", 2, x), ("bvor", x, y)))) for _ in range(2)]
 
     def probes(t):
-        return [{"op": "sat", "s": t, "extra": []}, {"op": "eval", "s": t, "e": x, "n": 300, "extra": []}, {"op": "batch", "s": t, "es": [x, y], "n": 300, "extra": []}]
+        return [{"op": "sat", "s": t, "extra": []}, {"op": "eval", "s": t, "e": x, "n": 300, "extra": []}, {"op": "batch", "s": t, "es": [x, y], "n": 300, "extra": []},
+                {"op": "max", "s": t, "e": comp[0], "signed": False, "extra": []}, {"op": "eval", "s": t, "e": comp[1], "n": 300, "extra": []},
+                {"op": "min", "s": t, "e": comp[1], "signed": False, "extra": []}]
 
     order = list(range(n_br + 2))
-    if draw(st.booleans()):
+    if draw(st.integers(0, 3)):
         for t in order:
-            out += probes(t)[: draw(st.integers(1, 3))]
+            ps = probes(t)
+            out += [ps[j] for j in sorted(draw(st.sets(st.integers(0, len(ps) - 1), min_size=1, max_size=4)))]
     t_add = draw(st.sampled_from(order))
     out.append({"op": "add", "s": t_add, "cs": [draw(st.one_of(st.just(cmpc(x)), st.just(("ule", ("bvadd", x, y), _c(draw(st.sampled_from(CONSTS))))), constraints(names)))], "as_list": False})
     for t in order:
         out += probes(t)
     if exact_kw is not None:
-        out = [({**s_, "exact": draw(st.sampled_from(exact_kw))} if s_["op"] in ("sat", "eval", "batch", "min") else s_) for s_ in out]
+        out = [({**s_, "exact": draw(st.sampled_from(exact_kw))} if s_["op"] in ("sat", "eval", "batch", "min", "max") else s_) for s_ in out]
+    return out
+
+
+@st.composite
+def scenario_core(draw):
+    """Unsatisfiability reached in the ways that take different routes to a core: a pairwise contradiction the cheap syntactic
+    check recognises, one that only the solver finds (two or three constraints over two variables), False itself; the members
+    arrive one per add or batched, with satisfiable bystanders, with a query (which creates the backend solver) and / or a branch
+    (which finalizes and later clones it) before the last member arrives; unsat_core() is then asked on every live solver,
+    twice, and after a further add."""
+    names = tuple(draw(st.permutations(BVVARS)))
+    x, y, z = _v(names[0]), _v(names[1]), _v(names[2])
+    fams = [
+        [("ult", x, _c(3)), ("ugt", x, _c(5))],
+        [("eq", x, _c(1)), ("eq", x, _c(2))],
+        [("eq", x, _c(1)), ("ne", x, _c(1))],
+        [("ult", x, y), ("ult", y, _c(4)), ("ugt", x, _c(5))],
+        [("ugt", x, _c(9)), ("ult", y, _c(5)), ("eq", ("bvadd", x, y), _c(9))],
+        [("ule", x, _c(6)), ("uge", x, y), ("ugt", y, _c(9))],
+        [("bconst", False)],
+        [("eq", ("bvand", x, _c(1)), _c(1)), ("eq", ("bvand", x, _c(3)), _c(2))],
+        [("slt", x, _c(0)), ("ult", x, _c(8))],
+    ]
+    fam = list(draw(st.permutations(draw(st.sampled_from(fams)))))
+    noise = [draw(st.sampled_from((("ule", z, _c(12)), ("ne", z, _c(0)), ("ugt", ("bvadd", z, _c(1)), _c(2)), ("ule", y, _c(14)), ("ne", x, _c(7)), ("eq", z, _c(3)))))
+             for _ in range(draw(st.integers(0, 3)))]
+    early, last = fam[:-1], fam[-1]
+    pre = list(draw(st.permutations(early + noise)))
+    out = []
+    tag = lambda: ({"tag": draw(st.integers(0, 3))} if draw(st.integers(0, 3)) == 0 else {})  # noqa: E731
+    i = 0
+    while i < len(pre):
+        k = draw(st.integers(1, 2))
+        out.append({"op": "add", "s": 0, "cs": pre[i : i + k], "as_list": draw(st.booleans()), **tag()})
+        i += k
+        if draw(st.integers(0, 2)) == 0:
+            out.append(draw(st.sampled_from(({"op": "sat", "s": 0, "extra": []}, {"op": "unsat_core", "s": 0, "extra": []},
+                                             {"op": "eval", "s": 0, "e": x, "n": 1, "extra": []}))))
+    if draw(st.booleans()):
+        out.append(draw(st.sampled_from(({"op": "sat", "s": 0, "extra": []}, {"op": "unsat_core", "s": 0, "extra": []}))))
+    n_br = draw(st.integers(0, 2))
+    for _ in range(n_br):
+        out.append({"op": "branch", "s": draw(st.integers(0, 2))})
+        if draw(st.integers(0, 2)) == 0:
+            out.append({"op": "sat", "s": draw(st.integers(0, 2)), "extra": []})
+    t = draw(st.integers(0, n_br))
+    tail_noise = [draw(st.sampled_from((("ule", z, _c(13)), ("ne", y, _c(15)))))] if draw(st.integers(0, 2)) == 0 else []
+    out.append({"op": "add", "s": t, "cs": list(draw(st.permutations([last, *tail_noise]))), "as_list": draw(st.booleans()), **tag()})
+    for u in range(n_br + 1):
+        out.append({"op": "unsat_core", "s": u, "extra": []})
+        out.append({"op": "sat", "s": u, "extra": []})
+        out.append({"op": "unsat_core", "s": u, "extra": []})
+    if draw(st.booleans()):
+        out.append({"op": "add", "s": t, "cs": [("ule", z, _c(11))], "as_list": False})
+        out.append({"op": "unsat_core", "s": t, "extra": []})
+    if draw(st.integers(0, 3)) == 0:
+        # a satisfiable solver asked with refutable extras
+        out.append({"op": "unsat_core", "s": (t + 1) % (n_br + 1), "extra": [("ugt", z, _c(14)), ("ult", z, _c(2))]})
     return out
 
 
